@@ -198,6 +198,8 @@ def run_shard(sh, rec):
                                 for j in range(3):
                                     c2 = _copy.copy(case)
                                     c2.kw = {k: (stacks[k][j] if k in stacks else v) for k, v in case.kw.items()}
+                                    for ak, tgt in case.alias.items():
+                                        c2.kw[ak] = c2.kw[tgt]
                                     audit.audit(vname, c2, A, rec, rng, real_t, dict(meta, call=f"history[{j}]"))
                                     del c2
                                     rec.count("calls_with_temporary_output_views")
@@ -207,7 +209,7 @@ def run_shard(sh, rec):
                                 import copy as _copy
 
                                 pools = {k: util.sentinel_like(rng, tuple(2 * n for n in a_.shape), a_.dtype).copy() for k, a_ in case.kw.items()
-                                         if isinstance(a_, np.ndarray) and a_.dtype.kind != "c" and a_.ndim >= 2}
+                                         if isinstance(a_, np.ndarray) and a_.dtype.kind != "c" and a_.ndim >= 2 and k not in case.alias}
                                 for j in range(2):
                                     c2 = _copy.copy(case)
                                     c2.kw = dict(case.kw)
@@ -223,6 +225,8 @@ def run_shard(sh, rec):
                                         else:
                                             vw[...] = rng.standard_normal(a.shape).astype(a.dtype)
                                         c2.kw[k] = vw
+                                    for ak, tgt in case.alias.items():
+                                        c2.kw[ak] = c2.kw[tgt]
                                     audit.audit(vname, c2, A, rec, rng, real_t, dict(meta, call=f"pool-view[{j}]"))
                                     del c2
                                     rec.count("calls_on_views_sharing_address_and_shape_not_strides")
